@@ -68,7 +68,7 @@ func recvNamed(tf *types.Func) (pkg, name string) {
 		t = p.Elem()
 	}
 	if n, ok := t.(*types.Named); ok && n.Obj().Pkg() != nil {
-		return n.Obj().Pkg().Path(), n.Obj().Name()
+		return n.Obj().Pkg().Path(), refTypeName(n.Obj())
 	}
 	return "", ""
 }
